@@ -451,9 +451,9 @@ func (env *SpecEnv) bin(x *SExpr) SV {
 	case "*":
 		return SV{t: mulTerm(a.t, b.t), sort: "Int"}
 	case "/":
-		return SV{t: fmt.Sprintf("(tdiv %s %s)", a.t, b.t), sort: "Int"}
+		return SV{t: divTerm("tdiv", a.t, b.t), sort: "Int"}
 	case "%":
-		return SV{t: fmt.Sprintf("(tmod %s %s)", a.t, b.t), sort: "Int"}
+		return SV{t: divTerm("tmod", a.t, b.t), sort: "Int"}
 	case "&":
 		return SV{t: fmt.Sprintf("(band %s %s)", a.t, b.t), sort: "Int"}
 	case "|":
@@ -692,9 +692,9 @@ func (env *SpecEnv) call(x *SExpr) SV {
 			}
 		}
 	case "div": // Euclidean/floor division for non-negative operands
-		return SV{t: fmt.Sprintf("(div %s %s)", argv(0).t, argv(1).t), sort: "Int"}
+		return SV{t: divTerm("div", argv(0).t, argv(1).t), sort: "Int"}
 	case "mod":
-		return SV{t: fmt.Sprintf("(mod %s %s)", argv(0).t, argv(1).t), sort: "Int"}
+		return SV{t: divTerm("mod", argv(0).t, argv(1).t), sort: "Int"}
 	case "ite":
 		return SV{t: fmt.Sprintf("(ite %s %s %s)", argv(0).t, argv(1).t, argv(2).t), sort: argv(1).sort, gt: argv(1).gt}
 	case "i2f32":
@@ -723,6 +723,36 @@ func (env *SpecEnv) call(x *SExpr) SV {
 			return SV{t: fn, sort: rs, gt: rgt}
 		}
 		return SV{t: fmt.Sprintf("(%s %s)", fn, strings.Join(as, " ")), sort: rs, gt: rgt}
+	}
+	// functional repo function under contract: F(args)
+	for _, ct := range env.e.r.v.specs.Contracts {
+		if ct.Functional && ct.Func == x.S {
+			fn := env.e.r.v.findFunc(ct)
+			if fn == nil {
+				break
+			}
+			var as, sorts []string
+			off := 0
+			if fn.Signature.Recv() != nil {
+				off = 1
+			}
+			for i := range x.Args {
+				as = append(as, argv(i).t)
+			}
+			for i, p := range fn.Params {
+				if i < off {
+					continue
+				}
+				sorts = append(sorts, g.SortOf(p.Type()))
+			}
+			if off == 1 {
+				env.fail("functional methods are not supported in specs")
+				break
+			}
+			rt := fn.Signature.Results().At(0).Type()
+			g.DeclFun(functionalName(ct), sorts, g.SortOf(rt))
+			return SV{t: fmt.Sprintf("(%s %s)", functionalName(ct), strings.Join(as, " ")), sort: g.SortOf(rt), gt: rt}
+		}
 	}
 	// uninterpreted helper declared by an external rule (e.g. key functions, ghost predicates)
 	if sig, ok := env.e.r.v.ghostFuns[x.S]; ok {
